@@ -8,7 +8,7 @@ Python that decides "missing" element by element (shared with C16).
 import numpy as np
 from hypothesis import strategies as st
 
-from ..common import (DIFF, Outcome, Violation, arr_close, exc_violation,
+from ..common import (array_fingerprint, DIFF, Outcome, Violation, arr_close, exc_violation,
                       guarded)
 from .c16 import _weighted, eq, is_missing, ml_tag, ml_value
 
@@ -269,9 +269,23 @@ def _check_vote_vectors(case):
         f"weights={'none' if case.get('w') is None else 'matrix'}"]
     trig = _trig(case)
     classes = _ref_classes(case)
-    ok, r = guarded(compute_vote_vectors, build_y(case), w=build_w(case),
+    y_arg, w_arg = build_y(case), build_w(case)
+    fp = (array_fingerprint(y_arg), array_fingerprint(w_arg))
+    ok, r = guarded(compute_vote_vectors, y_arg, w=w_arg,
                     classes=build_classes(case),
                     missing_label=ml_value(case["ml"]))
+    if ok and isinstance(w_arg, np.ndarray) and \
+            array_fingerprint(w_arg) != fp[1]:
+        # a caller re-using its weight array for the next call (labels
+        # revealed in between) would get wrong counts there
+        return Outcome([Violation(
+            comp, "weights_argument_modified", "w=float64_ndarray",
+            "the caller's weight array was changed in place")],
+            nontrivial, labels)
+    if ok and isinstance(y_arg, np.ndarray) and \
+            array_fingerprint(y_arg) != fp[0]:
+        return Outcome([Violation(comp, "labels_argument_modified",
+                                  "y=ndarray", "")], nontrivial, labels)
     if not classes:
         labels.append("no_class_inferable")
         if not ok and isinstance(r, ValueError):
